@@ -78,6 +78,7 @@ type Mutation struct {
 // CpSpec says how to build the submitted checkpoint.
 type CpSpec struct {
 	Replay     int        `json:"replay,omitempty"` // k>0: resend the bytes submitted by op k-1
+	ReplayOut  bool       `json:"replay_out,omitempty"` // with Replay: resend the bytes the witness returned for op k-1 instead
 	Branch     int        `json:"branch"`           // -1: the branch the witness currently holds
 	Size       SizeSpec   `json:"size"`
 	MinSize    uint64     `json:"min_size,omitempty"` // resolved size is at least this
@@ -153,6 +154,8 @@ type Env struct {
 	trees map[string]*Branch
 	// sent[i] is the checkpoint bytes submitted by op i.
 	sent [][]byte
+	// outs[i] is what the target returned for op i.
+	outs [][]byte
 	// okProofs are proofs of accepted updates (for the replay proof kind).
 	okProofs [][][]byte
 }
@@ -273,7 +276,7 @@ func (e *Env) ScanCheckpoint(raw []byte) Held {
 	}
 	h.Origin, h.Size, h.Root, h.ParseOK = lines[0], sz, root, true
 	if e != nil {
-		h.Branch = e.trees[treeKey(sz, root)]
+		h.Branch = e.trees[lines[0]+"\x00"+treeKey(sz, root)]
 	}
 	return h
 }
@@ -504,7 +507,7 @@ func (s SizeSpec) resolve(cur, sub uint64) uint64 {
 
 // MaxRealSize bounds the sizes for which real trees are computed (unless the
 // universe has a filler region, where anything up to 2^63 is cheap).
-const MaxRealSize = 1 << 16
+const MaxRealSize = 1 << 18
 
 func (e *Env) realLimit() uint64 {
 	if e.Case.Filler > 0 {
@@ -534,6 +537,9 @@ func (e *Env) Resolve(idx int, op Op, held Held) Req {
 	cs := op.Cp
 	if cs.Replay > 0 && cs.Replay-1 < len(e.sent) && cs.Replay-1 < idx {
 		r.Cp = e.sent[cs.Replay-1]
+		if cs.ReplayOut && cs.Replay-1 < len(e.outs) && len(e.outs[cs.Replay-1]) > 0 {
+			r.Cp = e.outs[cs.Replay-1]
+		}
 		h := e.ScanCheckpoint(r.Cp)
 		r.CpText, r.CpSize, r.CpRoot, r.CpBr = h.Text, h.Size, h.Root, h.Branch
 		r.Mutated = true // authenticity unknown to the resolver; oracles treat it as arbitrary bytes
@@ -547,12 +553,14 @@ func (e *Env) Resolve(idx int, op Op, held Held) Req {
 			size = cs.MinSize
 		}
 		var root []byte
-		real := cs.Root == "" && size <= e.realLimit()
+		if cs.Root == "" && size > e.realLimit() {
+			size = e.realLimit() // keep "real tree" requests real: clamp instead of inventing a root
+		}
+		real := cs.Root == ""
 		if real {
 			h := br.Root(size)
 			root = h[:]
 			r.CpBr = br
-			e.trees[treeKey(size, root)] = br
 		} else {
 			h := sha256.Sum256([]byte(fmt.Sprintf("rand root %d %d %d", cs.RootTag, size, cs.Branch)))
 			switch cs.Root {
@@ -584,6 +592,11 @@ func (e *Env) Resolve(idx int, op Op, held Held) Req {
 			if r.LogIdx < 0 {
 				origin = "unknown.example/log"
 			}
+		}
+		if real && origin == ownOrigin {
+			// remembered per origin (and only by requests addressed to that log), so that what one log's requests register never
+			// influences how another log's symbolic requests resolve
+			e.trees[origin+"\x00"+treeKey(size, root)] = br
 		}
 		text := CheckpointText(origin, size, root, cs.Ext)
 		r.CpText, r.CpSize, r.CpRoot = text, size, root
@@ -1050,6 +1063,10 @@ func (e *Env) Exec(t Target, o RunOpts) ([]*Step, error) {
 		if st.Verdict == VAccepted {
 			e.okProofs = append(e.okProofs, cloneProof(st.Req.Proof))
 		}
+		for len(e.outs) <= i {
+			e.outs = append(e.outs, nil)
+		}
+		e.outs[i] = st.Out
 		if !o.NoSnapshots {
 			st.Post = e.TakeSnapshot(t)
 		}
